@@ -14,7 +14,7 @@
     catch_unwind, with stack-depth probes in child processes; the evidence records counts per stage and class. *)
 From Coq Require Import List NArith Bool.
 Import ListNotations.
-From LI Require Import Base.StrOps Parser.Parse Parser.Json Parser.ParseCheck Parser.ParseTotal.
+From LI Require Import Base.StrOps Parser.Parse Parser.Json Parser.ParseCheck Parser.ParseTotal Parser.JsonProofs.
 From LI Require Parser.Ranges.
 From LI Require Parser.RangesTotal.
 
@@ -53,3 +53,8 @@ Proof. split; [vm_compute; reflexivity | eexists; vm_compute; reflexivity]. Qed.
 Theorem C09_range_count_total : forall strict t tbl c site,
   Ranges.parse_count_g strict t tbl c <> Ranges.Panic site.
 Proof. exact RangesTotal.parse_count_nopanic. Qed.
+
+(** The instance the correspondence actually runs (ASCII-exact identifier check, the JSON argument
+    reader of Parser/Json.v, current code) is closed: no hypothesis on oracles is left. *)
+Theorem C09_model_parse_total : forall s, safe (model_parse s).
+Proof. exact model_parse_safe. Qed.
